@@ -215,6 +215,7 @@ theorem demoDiamondCb_plain : PlainP demoDiamondCb demoDag := by
     · cases h
     · cases h; exact ⟨rfl, rfl⟩
   · intro _ _; exact ⟨rfl, rfl⟩
+  · intro _; rfl
 
 /-- node 0 has produced its value and stored it, its task is suspended inside `artifact_store.save`, nobody has been
 notified yet: the launcher is still blocked on `cond[2]` although node 2 *is* ready — the situation the `Settled`
